@@ -112,6 +112,11 @@ def mk_analyzer(name, T, spec):
     if name == 'MorletWaveletAnalyzer':
         return A.MorletWaveletAnalyzer(T, freqs=[0.2 * fs, 0.3 * fs])
     if name == 'EventRelatedAnalyzer':
+        if spec.get('ev_kind') == 'Events':     # Events input: negative offsets are admitted
+            dt = ps_of(T.sampling_interval)
+            tms = nt().TimeArray(np.array([6, 11, 17, 23], dtype=np.int64) * dt, time_unit='ps')
+            tms.convert_unit(T.time_unit)
+            return A.EventRelatedAnalyzer(T, nt().Events(tms), spec['len_et'], offset=spec['offset'])
         return A.EventRelatedAnalyzer(T, events_for(T, spec), spec['len_et'], offset=spec['offset'])
     return getattr(A, name)(T)
 
@@ -365,6 +370,10 @@ def cases(rng, tier, seed):
     for name, getter, kind, chain_fn, dims in OUTPUTS:
         for k in range(per):
             spec = gen_spec(rng, dims, k, name)
+            if getter in ('eta', 'ets') and (k == 2 or (k >= 3 and rng.random() < 0.4)):
+                spec.update(ev_kind='Events', offset=-2 if k == 2 else rng.choice([-3, -2, -1, 0, 1]),
+                            iv=GOOD_IV[spec['unit']][k % 3])
+                spec.pop('rate', None)
             if getter == 'xcorr_eta':      # the only (offset, len_et) its index arithmetic admits (C19's clause)
                 spec['offset'], spec['len_et'] = 0, 6
             impl, a_in, a_out, O, T = run_output(name, getter, spec)
@@ -541,7 +550,7 @@ def direct_data(name, getter, T, spec, Fs):
             b2 = -1 * signal.firwin(9, lf, window='hamming')
             b2[4] += 1
             return ff(b2, [1], x)
-    if name == 'EventRelatedAnalyzer' and getter in ('eta', 'ets'):
+    if name == 'EventRelatedAnalyzer' and getter in ('eta', 'ets') and spec.get('ev_kind') != 'Events':
         n = d.shape[-1]
         ev = np.zeros(n)
         ev[[3, 10, 18]] = 1
